@@ -599,6 +599,29 @@ func init() {
 			updKey = strings.Contains(c.Src(fd.Body), "cs.readResourceCache.invalidateKey(req.Params.URI)")
 		}
 		fmt.Fprintf(&b, "/-- mcp/client.go callResourceUpdatedHandler invalidates the read cache entry of the notified URI -/\ndef updatedInvalidatesKey : Bool := %v\n", updKey)
+		// under which condition each notification handler invalidates: the first statement of the handler
+		// is `if cs, ok := req.GetSession().(*ClientSession); <cond> { <invalidations> }`; nothing but the
+		// type of the session (and, for resources/updated, the presence of params) may gate it — in
+		// particular not cs.resourceSubs (`handle_ignores_subscriptions`)
+		guards := map[string]any{}
+		for _, key := range []string{"notificationToolListChanged", "notificationPromptListChanged", "notificationResourceListChanged", "notificationResourceUpdated"} {
+			g := map[string]any{"found": false}
+			if fd := c.Func("mcp", "Client", handlerOf[key]); fd != nil && len(fd.Body.List) > 0 {
+				if is, ok := fd.Body.List[0].(*ast.IfStmt); ok {
+					body := []string{}
+					for _, st := range is.Body.List {
+						body = append(body, c.Src(st))
+					}
+					init := ""
+					if is.Init != nil {
+						init = c.Src(is.Init)
+					}
+					g = map[string]any{"found": true, "init": init, "cond": c.Src(is.Cond), "body": body, "else": is.Else != nil}
+				}
+			}
+			guards[key] = g
+		}
+		defer func() { c.Fact("notify.client_invalidation_guards", guards) }()
 		b.WriteString("end Generated.Notify\n")
 		c.Lean["NotifyGen"] = b.String()
 
